@@ -340,6 +340,33 @@ func init() {
 					return
 				}
 			}
+			// large inputs: files beyond every compressor window and block size (noise and an all-zero file),
+			// a tree of thousands of files, a glob with hundreds of matches, thousands of explicit entries
+			var explicitMany []model.Entry
+			for d := 0; d < fixture.ManyDirs; d++ {
+				for f := 0; f < fixture.ManyFiles; f++ {
+					explicitMany = append(explicitMany, model.Entry{Src: fmt.Sprintf("many/d%02d/f%03d", d, f), Dst: fmt.Sprintf("/srv/m/%d-%d", f, d)})
+				}
+			}
+			large := [][]model.Entry{
+				{{Src: "huge/noise.bin", Dst: "/opt/huge/noise.bin"}},
+				{{Src: "huge/zeros.bin", Dst: "/opt/huge/zeros.bin"}},
+				{{Src: "huge", Dst: "/opt/huge", Type: "tree"}, {Src: "etc/app.conf", Dst: "/etc/after-huge.conf", Type: "config"}},
+				{{Src: "many", Dst: "/opt/many", Type: "tree"}},
+				{{Src: "many/*/f00?", Dst: "/opt/globbed"}},
+				{{Src: "many/", Dst: "/opt/many-dir"}},
+				explicitMany,
+			}
+			for _, s := range sets {
+				if s.Only != "" && !env.Thorough() && s.Name != "deb.compression=zstd" && s.Name != "rpm.compression=xz" {
+					continue
+				}
+				for _, l := range large {
+					if !yield(C01Case{Setting: s, List: l}) {
+						return
+					}
+				}
+			}
 			// pairs under every setting (compression settings: pairs of untagged templates only)
 			for _, s := range sets {
 				for i, a := range all {
